@@ -11,7 +11,8 @@ import CifModel.Basic
     * cif_value_clone                  (value.c)    — for character, number, unknown/na and (nested) list values,
                                                       with a fresh target (`*clone == NULL`)
     * cif_value_insert_element_at      (value.c)    — clone the element, grow the element array when full
-    * cif_value_set_element_at         (value.c)    — clone the element into the EXISTING target (`*clone != NULL`)
+    * cif_value_set_element_at         (value.c)    — clone the element into the EXISTING target (`*clone != NULL`):
+                                                      via a scratch object, target replaced only on success
     * cif_loop_get_names               (loop.c)     — cif_loop_get_names_internal(normalize = 0) on a stored loop:
                                                       linked list of (node, string), then the array of strings
 
@@ -182,42 +183,43 @@ def insertElement (failAt : Nat) (full : Bool) (elem : Shape) (s : St := {}) : N
 
 -- ---------------------------------------------------------------------------------------------------------------
 -- cif_value_set_element_at(list, index, element) with element != NULL and element != the current target:
--- `cif_value_clone(element, &target)` with a pre-existing target object (`*clone != NULL`)
+-- `cif_value_clone(element, &target)` with a pre-existing target object (`*clone != NULL`, `*clone != value`).
+-- Since /repo commit f1b092b the copy is built in a scratch object first; only on success is the target cleaned, the
+-- scratch struct-copied into it and the scratch OBJECT released (its components now belong to the target).  On
+-- failure the target is not touched at all.
 
-/-- `cif_value_clone` into an existing target: `cif_value_clean(*clone)` first (releases of the target's old, pre-existing
-    blocks: not events of the window), `to_free` stays NULL, so on failure the handler's `free(to_free)` releases nothing
-    and the target object itself survives.  Returns the ids of the blocks the target gained. -/
-def cloneExisting (failAt : Nat) : Shape → St → Option (List Nat) × St
-  | .scalar, s => (some [], s)
-  | .chr, s =>
-    match alloc failAt s with                                     -- cif_u_strdup(text)
-    | (none, s') => (none, s')
-    | (some t, s') => (some [t], s')
-  | .numb hasSu, s =>
-    match alloc failAt s with                                     -- text
-    | (none, s') => (none, s')
-    | (some t, s') =>
-      match alloc failAt s' with                                  -- digits
-      | (none, s'') => (none, free t s'')
-      | (some d, s'') =>
-        if hasSu then
-          match alloc failAt s'' with                             -- su_digits
-          | (none, s3) => (none, free t (free d s3))               -- FAILURE_HANDLER(su): digits, then text
-          | (some u, s3) => (some [t, d, u], s3)
-        else (some [t, d], s'')
-  | .lst elems, s =>
-    match alloc failAt s with                                     -- the element array
-    | (none, s') => (none, s')
-    | (some arr, s') =>
-      match cloneElems failAt elems [] s' with
-      | (some es, s'') => (some (arr :: Owned.idsList es), s'')
-      | (none, s'') => (none, free arr s'')                        -- cif_list_value_clean: elements (done by cloneElems), array
+/-- the value object itself -/
+def Owned.obj : Owned → Nat
+  | .scalar o => o
+  | .chr o _ => o
+  | .numb o _ _ _ => o
+  | .lst o _ _ => o
 
-/-- returns (result code, ids gained by the target element, final state) -/
-def setElement (failAt : Nat) (elem : Shape) (s : St := {}) : Nat × Option (List Nat) × St :=
-  match cloneExisting failAt elem s with
-  | (none, s') => (MEMORY_ERROR, none, s')
-  | (some g, s') => (OK, some g, s')
+/-- the component blocks (everything but the value object) -/
+def Owned.parts : Owned → List Nat
+  | .scalar _ => []
+  | .chr _ t => [t]
+  | .numb _ t d su => [t, d] ++ su.toList
+  | .lst _ a es => a :: Owned.idsList es
+
+/-- events of `cif_value_clean(v)`: as `freeOwned` without the final `free(v)` -/
+def cleanOwned : Owned → St → St
+  | .scalar _, s => s
+  | .chr _ t, s => free t s
+  | .numb _ t d su, s =>
+    let s := free t s
+    let s := free d s
+    match su with | some x => free x s | none => s
+  | .lst _ a es, s => free a (freeOwnedRev es s)
+
+/-- `old` = the target element as it is before the call (its blocks are live in `s`: they were obtained earlier).
+    Returns (result code, component ids the target owns afterwards if it was replaced, final state). -/
+def setElement (failAt : Nat) (old : Owned) (elem : Shape) (s : St) : Nat × Option (List Nat) × St :=
+  match clone failAt elem s with                                  -- cif_value_clone(value, &scratch), scratch == NULL
+  | (none, s') => (MEMORY_ERROR, none, s')                         -- return result;  (target untouched)
+  | (some o, s') =>
+    -- cif_value_clean(*clone);  **clone = *scratch;  free(scratch);
+    (OK, some o.parts, free o.obj (cleanOwned old s'))
 
 -- ---------------------------------------------------------------------------------------------------------------
 -- cif_loop_get_names(loop, &names) = cif_loop_get_names_internal(loop, &names, CIF_FALSE) for a stored loop
